@@ -240,12 +240,19 @@ def replay_spec(facts, r):
     # the ghost table of the counter-model is not decoded key by key: replay with the table that
     # maps every identifier/path occurring in e that the model marks as a key; fall back to e itself
     es = to_py_source(w["e"])
-    script = f"""
+    from contracts.native_ref import NATIVE_REF
+    script = NATIVE_REF + f"""
 import json, copy
 from odata_query import ast
 from odata_query.rewrite import AliasRewriter
-from odata_query.roundtrip import AstToODataVisitor
-e = {es}
+from odata_query.grammar import ODataLexer, ODataParser
+try:
+    witness = [sanitize({es})]
+except Exception:
+    witness = []
+BATTERY = ["a eq 1", "'x' in (a, b/c, 1)", "(a,) eq b", "contains(concat(a, b/c), 'x')", "a/b/c eq b/c",
+           "items/any(x: x/price gt a and x/q in (a, b))", "not (a add b/c lt -a)", "f.g(p=a, q=(a, b))"]
+trees = witness + [ODataParser().parse(ODataLexer().tokenize(t)) for t in BATTERY]
 
 def subst(R, B, e):
     # independent substitution (property statement)
@@ -279,6 +286,27 @@ def subst(R, B, e):
             kw[f.name] = v
     return type(e)(**kw)
 
+def subst_code_known(key, target, e):
+    # what the recorded findings predict: like subst, but Call.func / NamedParam.name / Lambda.identifier and
+    # uses of lambda variables are substituted too
+    import dataclasses
+    if isinstance(e, ast.Identifier):
+        return target if e == key else e
+    if isinstance(e, ast.Attribute):
+        if e == key:
+            return target
+        return ast.Attribute(subst_code_known(key, target, e.owner), e.attr)
+    kw = {{}}
+    for f in dataclasses.fields(e):
+        v = getattr(e, f.name)
+        if isinstance(v, list):
+            kw[f.name] = [subst_code_known(key, target, x) if isinstance(x, ast._Node) else x for x in v]
+        elif isinstance(v, ast._Node):
+            kw[f.name] = subst_code_known(key, target, v)
+        else:
+            kw[f.name] = v
+    return type(e)(**kw)
+
 def refs(e, acc):
     import dataclasses
     if isinstance(e, (ast.Identifier, ast.Attribute)):
@@ -292,21 +320,29 @@ def refs(e, acc):
     return acc
 
 target = ast.Call(ast.Identifier('tgt', ('ns',)), [])
+KNOWN_REGION = lambda key, e: False
 found = None
-for key in refs(e, []):
-    rw = AliasRewriter({{}})
-    rw.replacements = {{key: target}}
-    before = copy.deepcopy(e)
-    try:
-        got = rw.visit(e)
-        err = None
-    except Exception as ex:
-        got, err = None, type(ex).__name__ + ': ' + str(ex)
-    exp = subst({{key: target}}, [], e)
-    if err or got != exp or e != before:
-        found = {{'key': repr(key), 'got': repr(got), 'expected': repr(exp), 'error': err, 'mutated': e != before}}
+for e in trees:
+    for key in refs(e, []):
+        rw = AliasRewriter({{}})
+        rw.replacements = {{key: target}}
+        before = copy.deepcopy(e)
+        try:
+            got = rw.visit(e)
+            err = None
+        except Exception as ex:
+            got, err = None, type(ex).__name__ + ': ' + str(ex)
+        exp = subst({{key: target}}, [], e)
+        if err or got != exp or e != before:
+            # recorded findings (function / parameter / lambda-variable names that are alias keys) are not re-reported
+            code = subst_code_known(key, target, e)
+            if err is None and e == before and got == code:
+                continue
+            found = {{'key': repr(key), 'tree': repr(e)[:200], 'got': repr(got)[:300], 'expected': repr(exp)[:300], 'error': err, 'mutated': e != before}}
+            break
+    if found:
         break
-print(json.dumps({{'violates': found is not None, 'detail': found, 'e': repr(e)}}))
+print(json.dumps({{'violates': found is not None, 'detail': found}}))
 """
     return {"native_script": script, "input_text": f"e={es}", "required": "AliasRewriter(R).visit(e) == subst(R, [], e)"}
 
